@@ -976,6 +976,7 @@ struct World
 
 // ---------------------------------------------------------------- generators
 bool gExhaustive = false;
+bool gReplay = false;
 long gBound = 3;
 
 const char *intern(const std::string &s)
@@ -1147,8 +1148,8 @@ void run(Src &src, Case &c)
     }
 
     for (long stepNo = 0; ok && stepNo < maxSteps; ++stepNo) {
-        if (!gExhaustive && src.exhausted()) {
-            break;
+        if ((!gExhaustive || gReplay) && src.exhausted()) {
+            break; // (a replayed exhaustive tape may be shorter than the default bound)
         }
         Call cl;
         bool have = false;
@@ -1158,6 +1159,7 @@ void run(Src &src, Case &c)
             const Kind famKind = family == 0 ? COMP : family == 1 ? VAR : family == 2 ? UNITS : RESET;
             std::vector<Call> calls;
             calls.reserve(256);
+            long excludedHere = 0;
             std::vector<int> aliveK[NKINDS];
             for (size_t i = 0; i < w.objs.size(); ++i) {
                 if (w.objs[i].alive) {
@@ -1253,6 +1255,7 @@ void run(Src &src, Case &c)
                         for (int a : fam) {
                             base.a = a;
                             if (w.o(a).parent == K) {
+                                ++excludedHere;
                                 continue;
                             }
                             calls.push_back(base);
@@ -1286,6 +1289,7 @@ void run(Src &src, Case &c)
                             base.b = nw;
                             auto emit = [&]() {
                                 if (d.act == REPLACE && replaceExcluded(d, base)) {
+                                    ++excludedHere;
                                     return;
                                 }
                                 calls.push_back(base);
@@ -1316,6 +1320,9 @@ void run(Src &src, Case &c)
                     dcl.a = static_cast<int>(i);
                     calls.push_back(dcl);
                 }
+            }
+            if (excludedHere > 0) {
+                c.count("excluded:already-held-by-that-container", excludedHere);
             }
             if (calls.empty()) {
                 break;
@@ -1473,7 +1480,14 @@ void run(Src &src, Case &c)
 
 void setMode(const std::string &mode, long bound)
 {
+    // A saved tape does not say which generator wrote it, and `--replay` does not either: the binary decides.
+    // C09 decodes replays with the random-history generator, C09_ex (built with C09_EX_ONLY) with the exhaustive one.
+    gReplay = mode == "replay";
+#ifdef C09_EX_ONLY
+    gExhaustive = true;
+#else
     gExhaustive = mode == "ex";
+#endif
     gBound = bound;
 }
 
